@@ -335,6 +335,21 @@ func init() {
 		if v == nil {
 			return false, nil
 		}
+		if firstOpArg(a[1].List, "unsetp") != nil {
+			// a history on one object (pack, unset a subfield, pack again): what the object packs to at the end is the
+			// reference layout of what it then holds
+			defer func() { recover() }()
+			_, f := runFldOpsOn(a[0], buildField(a[0]), a[1].List)
+			packed, err := f.Pack()
+			cur, perr := parseSx(showVal(f))
+			if err != nil || perr != nil {
+				return false, nil
+			}
+			if ref, defined := refField(a[0], cur); defined && !bytes.Equal(ref, packed) {
+				return true, []Finding{{"c03-repack-differs", fmt.Sprintf("after pack / unset / pack the object packs to %x, the reference layout of what it holds is %x", clipB(packed), clipB(ref))}}
+			}
+			return true, nil
+		}
 		ref, defined := refField(a[0], v)
 		f := buildField(a[0])
 		applyVal(f, v)
